@@ -286,6 +286,22 @@ Section CacheProofs.
     run_cached ideal sv [] steps = map (fun s => serve_nocache sv (snd s)) steps.
   Proof. intros sv steps. apply transparent_from, cache_sound_empty. Qed.
 
+  (** transparency across reloads: a reload installs the new spec with an empty cache *)
+  Theorem transparent_ops_from : forall ops sv c,
+    cache_sound sv c ->
+    run_ops re_match re_replace ip_allow ideal sv c ops = ref_ops re_match re_replace ip_allow sv ops.
+  Proof.
+    induction ops as [|[keep rq|sv'] t IH]; intros sv c Hc; cbn [run_ops ref_ops]; [reflexivity| |].
+    - pose proof (step_sound sv c keep rq Hc) as [H1 H2].
+      destruct (step ideal sv c keep rq) as [o c'] eqn:E. cbn [fst snd] in *.
+      rewrite H1, (IH sv c' H2). reflexivity.
+    - apply IH, cache_sound_empty.
+  Qed.
+
+  Theorem transparent_ops : forall sv ops,
+    run_ops re_match re_replace ip_allow ideal sv [] ops = ref_ops re_match re_replace ip_allow sv ops.
+  Proof. intros sv ops. apply transparent_ops_from, cache_sound_empty. Qed.
+
   (** the invariant holds along every run *)
   Fixpoint run_cache (q : quirks) (sv : server) (c : cache) (steps : list ((key -> bool) * request)) : cache :=
     match steps with
